@@ -147,6 +147,33 @@ theorem calleeOkAlong_of_vmOk (force : Bool) (el : ExtLaws ext) (eg : ExtGood ex
     CalleeOkAlong (machine ext force) s0 :=
   fun s' hr _ => (vmOkP_reaches force el eg ep ⟨h0, p0⟩ sb s' hr).calleeOk
 
+/-! ## `prepare_eval` -/
+
+/-- the law of the compiler inside `prepare_eval` for the two clauses: the heap it returns — with the fresh entry
+    lambda in it, which nothing but `ip.0` refers to — satisfies `HP` (a parameter, like `CompGood`) -/
+structure CompProc (comp : CHeap → VCell → Outcome (CHeap × VCell)) : Prop where
+  hp : ∀ (h : CHeap) (d : VCell) (h' : CHeap) (v : VCell), HP h → addrFree d = true → comp h d = .ok (h', v) → HP h'
+
+/-- the state `prepare_eval` produces from an idle machine (`acc` and the stack wiped) satisfying `PInv` satisfies it -/
+theorem prepare_pinv {comp : CHeap → VCell → Outcome (CHeap × VCell)} (cp : CompProc comp) {s s' : St CHeap}
+    {d : VCell} (p : PInv s) (hacc : s.acc = .undefined) (hst : ∀ c ∈ s.stack.cells, c = VCell.undefined)
+    (hd : addrFree d = true) (hp : prepareEval comp s d = .ok s') : PInv s' := by
+  obtain ⟨h', e, hc, rfl⟩ := prepareEval_inv hp
+  refine ⟨cp.hp _ _ _ _ p.hp hd hc, ?_, ?_⟩
+  · show neB h' s.acc = true
+    rw [hacc]; rfl
+  · intro i v _ hv
+    have : v = .undefined := hst v (List.mem_of_getElem? hv)
+    subst this; rfl
+
+/-- the error epilogue's reset (registers idle, stack wiped) keeps the two clauses -/
+theorem onError_pinv {s : St CHeap} (p : PInv s) : PInv (onError s) := by
+  refine ⟨p.hp, rfl, ?_⟩
+  intro i v _ hv
+  have hm : v ∈ List.replicate s.stack.cells.length VCell.undefined := List.mem_of_getElem? hv
+  have : v = .undefined := (List.mem_replicate.mp hm).2
+  subst this; rfl
+
 /-! ## non-vacuity: the demo state of `Lemmas/VmOkDemo.lean` -/
 
 namespace Demo
@@ -163,6 +190,12 @@ theorem sHalt_vmOkP (ext : ExtOps) (ecl : ExtCodeLawsV ext) : VmOkP ext ecl (sHa
 
 theorem sHalt1_vmOkP (ext : ExtOps) (ecl : ExtCodeLawsV ext) : VmOkP ext ecl (sHalt 1) :=
   ⟨sHalt1_vmOk ext ecl, sHalt_pinv 1⟩
+
+/-- the clauses are not trivially true: the demo heap's cell 0 is an entry lambda (`[HALT]`), and a state whose `acc`
+    points to it, or whose heap holds a closure over it, is rejected by the executable check -/
+example : statePB { sHalt 0 with acc := .ptr 0 } = false := by decide +kernel
+
+example : heapPB { hHalt with cells := hHalt.cells.setIfInBounds 1 (.val (.closure 0 2)) } = false := by decide +kernel
 
 end Demo
 
